@@ -251,7 +251,13 @@ func c18Check(p *Plan, r *RunResult) *Verdict {
 				name := pa.Labels["alertname"]
 				firing := pa.EndOff == nil || *pa.EndOff > 0
 				wasIn, cnt := false, 0
+				boundary := false
 				for _, g := range before {
+					if d := g.EndsAt.Sub(postNow); g.Labels["alertname"] == name && d > -2*time.Millisecond && d < 2*time.Millisecond {
+						// an admitted alert of that name ends at the very instant of this
+						// submission: whether it still occupies its slot is a matter of < vs <=
+						boundary = true
+					}
 					if g.EndsAt.After(postNow) {
 						if g.Labels["alertname"] == name {
 							cnt++
@@ -269,6 +275,8 @@ func c18Check(p *Plan, r *RunResult) *Verdict {
 				}
 				refused := false
 				switch {
+				case boundary:
+					// not judged
 				case wasIn:
 					v.Ob("re-send-of-admitted-alert-accepted")
 					if firing && (isIn == nil || !isIn.UpdatedAt.Equal(postNow)) {
@@ -292,7 +300,7 @@ func c18Check(p *Plan, r *RunResult) *Verdict {
 				// every refusal is counted
 				mb, okb := metricAt[lastPost.T-time.Millisecond]
 				ma, oka := metricAt[rec.T]
-				if okb && oka && firing {
+				if okb && oka && firing && !boundary {
 					v.Ob("refusal-is-counted")
 					want := 0.0
 					if refused {
